@@ -5,7 +5,7 @@
    the model is reachable. *)
 From BV Require Import Common.Base Common.PyList Common.Tx Common.ScriptFlags
   Gen.ScriptConsts Gen.EvalConsts Model.Script Model.FindAndDelete Model.ScriptEval
-  Spec.Script Spec.ScriptRef Proofs.ScriptStack Proofs.ScriptNum.
+  Spec.Script Spec.ScriptRef Proofs.ScriptStack Proofs.ScriptNum Proofs.ScriptIter.
 
 (* the limits and opcode classes regenerated from the source are the reference ones *)
 Lemma limits_ok :
@@ -474,3 +474,115 @@ Proof.
     match goal with H : small v |- _ => unfold small in H end. unfold lenZ in *. lia.
 Qed.
 End Sim.
+
+Lemma exec_op_nop checksig ripemd160 sha1 sha256 fl op rest r r' :
+  match ref_kind op with KMultisig _ => False | _ => True end ->
+  exec_op checksig ripemd160 sha1 sha256 fl op rest r = Some r' -> r_nop r' = r_nop r.
+Proof.
+  intros P E. unfold exec_op in E. destruct r as [st al vf sub nop]. cbn [r_stack r_alt r_vf r_sub r_nop] in *.
+  destruct (ref_kind op); try contradiction; cbn [with_stack r_stack r_alt r_vf r_sub r_nop] in E; try discriminate E;
+  repeat match type of E with
+         | context [match ?c with _ => _ end] => destruct c eqn:?; try discriminate E
+         end; injection E as <-; reflexivity.
+Qed.
+
+(* ================= one loop iteration, then the loop ================= *)
+Section Loop.
+Variable checksig : bytes -> bytes -> bytes -> bool.
+Variable ripemd160 sha1 sha256 : bytes -> bytes.
+Variable fl : flags.
+Hypothesis hash_small : forall x, small (ripemd160 x) /\ small (sha1 x) /\ small (sha256 x).
+Notation step := (step checksig ripemd160 sha1 sha256 fl).
+Notation ref_step := (ref_step checksig ripemd160 sha1 sha256 fl).
+Notation exec_op := (exec_op checksig ripemd160 sha1 sha256 fl).
+Notation run_ops := (run_ops checksig ripemd160 sha1 sha256 fl).
+Notation eval_loop := (eval_loop checksig ripemd160 sha1 sha256 fl).
+
+Definition inv (r : rstate) : Prop := small2 r /\ lenZ (r_stack r) < 2^31 /\ r_nop r <= 201.
+Definition nosig (op : Z) : bool := match ref_kind op with KChecksig _ | KMultisig _ => false | _ => true end.
+
+Lemma disabled_push op : 0 <= op <= 0x4e -> disabled op = false.
+Proof.
+  intros H. assert (T : (if op <=? 0x4e then negb (disabled op) else true) = true)
+    by (apply (sweep256 (fun n => if n <=? 0x4e then negb (disabled n) else true)); [vm_compute; reflexivity|lia]).
+  destruct (Z.leb_spec op 0x4e); [|lia]. now apply negb_true_iff in T.
+Qed.
+Lemma lenZ_rev {A} (l : list A) : len (rev l) = lenZ l.
+Proof. unfold len, lenZ. now rewrite rev_length. Qed.
+
+Lemma step_sim scriptIn r pb op d idx rest code :
+  Spec.Script.get_op code = Ok (op, d, rest) -> inv r -> nosig op = true ->
+  match ref_step op d rest r with
+  | Some r' => (exists pb', step scriptIn (abs r pb) (mk_sop op d idx) = Ok (abs r' pb')) /\ inv r'
+  | None => step scriptIn (abs r pb) (mk_sop op d idx) = Err EvalErr
+  end.
+Proof.
+  intros G (S2 & S3 & Sn) NS. apply get_op_ok in G as [_ W]. unfold op_wf in W.
+  destruct r as [st al vf sub nop]. destruct S2 as [Sa Sb]. cbn [r_stack r_alt r_nop] in *.
+  unfold step, ref_step, abs. cbn [sop_opcode sop_data sop_idx stack altstack vfExec pbegincodehash nOpCount r_stack r_alt r_vf r_sub r_nop].
+  change OP_16 with 0x60. change OP_PUSHDATA4 with 0x4e. change MAX_SCRIPT_ELEMENT_SIZE with 520.
+  change MAX_STACK_ITEMS with 1000. change MAX_SCRIPT_OPCODES with 201. change OP_IF with 0x63. change OP_ENDIF with 0x68.
+  assert (Hop : 0 <= op < 256) by (destruct d; lia).
+  rewrite disabled_ok by exact Hop. rewrite check_exec_rev.
+  destruct d as [data|].
+  - (* a push operation *)
+    destruct W as (Hop' & _). rewrite disabled_push by lia. cbn [bind].
+    destruct (Z.gtb_spec op 0x60); [lia|]. cbn [bind].
+    destruct (Z.gtb_spec nop 201); [lia|].
+    destruct (Z.leb_spec op 0x4e); [|lia].
+    destruct (Z.gtb_spec (lenZ data) 520) as [Hd|Hd]; [reflexivity|].
+    destruct (forallb (fun b => b) vf); cbn [bind set_stack with_stack stack altstack vfExec pbegincodehash nOpCount r_stack r_alt r_vf r_sub r_nop].
+    + rewrite push_rev, !lenZ_rev.
+      destruct (Z.gtb_spec (lenZ (data :: st) + lenZ al) 1000); [reflexivity|].
+      split; [exists pb; reflexivity|]. repeat split; cbn [with_stack r_stack r_alt r_nop]; try assumption.
+      * constructor; [unfold small; lia|assumption].
+      * pose proof (Zle_0_nat (length al)). unfold lenZ in *. lia.
+    + rewrite !lenZ_rev. destruct (Z.gtb_spec (lenZ st + lenZ al) 1000); [reflexivity|].
+      split; [exists pb; reflexivity|]. repeat split; cbn [r_stack r_alt r_nop]; assumption.
+  - (* a non-push opcode *)
+    change (lenZ (@nil byte)) with 0. destruct (Z.gtb_spec 0 520); [lia|].
+    destruct (Z.leb_spec op 0x4e); [lia|].
+    destruct (disabled op) eqn:DIS.
+    { cbn [bind]. destruct (_ >? 201); reflexivity. }
+    cbn [bind].
+    (* the operation counter: nop' is the counter after this opcode *)
+    set (nop' := if op >? 96 then nop + 1 else nop).
+    assert (CNT : (if op >? 96 then
+                     if nop + 1 >? 201 then @fail state
+                     else Ok {| stack := rev st; altstack := rev al; vfExec := rev vf; pbegincodehash := pb; nOpCount := nop + 1 |}
+                   else Ok {| stack := rev st; altstack := rev al; vfExec := rev vf; pbegincodehash := pb; nOpCount := nop |})
+                  = if nop' >? 201 then Err EvalErr
+                    else Ok (abs {| r_stack := st; r_alt := al; r_vf := vf; r_sub := sub; r_nop := nop' |} pb)).
+    { subst nop'. destruct (op >? 96); [destruct (nop + 1 >? 201); reflexivity|].
+      destruct (Z.gtb_spec nop 201); [lia|reflexivity]. }
+    rewrite CNT. clear CNT. destruct (Z.gtb_spec nop' 201) as [Hn|Hn]; [reflexivity|]. cbn [bind].
+    set (r1 := {| r_stack := st; r_alt := al; r_vf := vf; r_sub := sub; r_nop := nop' |}).
+    assert (I1 : small2 r1 /\ lenZ (r_stack r1) < 2^31) by (repeat split; assumption).
+    assert (LIM : forall r2 pb', (do s' <- Ok (abs r2 pb'); if len (stack s') + len (altstack s') >? 1000 then @fail state else Ok s')
+                   = if lenZ (r_stack r2) + lenZ (r_alt r2) >? 1000 then Err EvalErr else Ok (abs r2 pb')).
+    { intros r2 pb'. cbn [bind]. unfold abs. cbn [stack altstack]. now rewrite !lenZ_rev. }
+    assert (INV : forall r2, small2 r2 -> r_nop r2 <= 201 -> lenZ (r_stack r2) + lenZ (r_alt r2) <= 1000 -> inv r2).
+    { intros r2 A B C. split; [exact A|]. split; [|exact B]. pose proof (Zle_0_nat (length (r_alt r2))). unfold lenZ in *. lia. }
+    destruct (forallb (fun b => b) vf || ((99 <=? op) && (op <=? 104))) eqn:EX.
+    + rewrite kind_ok by exact Hop. unfold nosig in NS.
+      destruct (ref_kind op) eqn:K; try discriminate NS.
+      all: try (match goal with K : ref_kind _ = ?k |- _ =>
+                pose proof (exec_sim_plain checksig ripemd160 sha1 sha256 fl scriptIn pb (mk_sop op None idx) rest Hop r1 k
+                   (conj (proj1 (proj1 I1)) (conj (proj2 (proj1 I1)) (proj2 I1))) eq_refl K) as SIM end;
+                unfold sim1 in SIM; cbn [sop_opcode] in SIM;
+                destruct (exec_op op rest r1) as [r2|] eqn:EO;
+                [rewrite SIM, LIM;
+                 destruct (Z.gtb_spec (lenZ (r_stack r2) + lenZ (r_alt r2)) 1000); [reflexivity|];
+                 split; [exists pb; reflexivity|];
+                 apply INV; [exact (exec_op_small checksig ripemd160 sha1 sha256 fl rest hash_small op rest r1 r2 Hop (proj1 I1) (proj2 I1) EO)|rewrite (exec_op_nop _ _ _ _ _ op rest r1 r2) by (try rewrite K; try exact I; exact EO); exact Hn|lia]
+                |rewrite SIM; reflexivity]).
+      (* CODESEPARATOR *)
+      destruct (sim_codesep checksig ripemd160 sha1 sha256 fl scriptIn pb (mk_sop op None idx) rest r1 K) as [E1 E2].
+      cbn [sop_opcode sop_idx] in E1, E2. rewrite E1, E2, LIM. cbn [r_stack r_alt r1].
+      destruct (Z.gtb_spec (lenZ st + lenZ al) 1000); [reflexivity|].
+      split; [exists idx; reflexivity|]. apply INV; [split; assumption|exact Hn|cbn [r_stack r_alt]; lia].
+    + rewrite LIM. cbn [r_stack r_alt r1].
+      destruct (Z.gtb_spec (lenZ st + lenZ al) 1000); [reflexivity|].
+      split; [exists pb; reflexivity|]. apply INV; [split; assumption|exact Hn|subst r1; cbn [r_stack r_alt]; lia].
+Qed.
+End Loop.
